@@ -449,9 +449,33 @@ func (p *parser) validDirective(dir string) bool {
 // replaceEnvVars replaces environment variables that appear in the token
 // and understands both the $UNIX and %WINDOWS% syntaxes.
 func replaceEnvVars(s string) string {
-	s = replaceEnvReferences(s, "{%", "%}")
-	s = replaceEnvReferences(s, "{$", "}")
-	return s
+	// one pass from left to right over both syntaxes, so that a value
+	// inserted for a reference in one of them is not searched for
+	// references in the other
+	syntaxes := [][2]string{{"{%", "%}"}, {"{$", "}"}}
+	var b strings.Builder
+	for {
+		first, index := -1, -1
+		for i, syn := range syntaxes {
+			at := strings.Index(s, syn[0])
+			if at == -1 || strings.Index(s[at+len(syn[0]):], syn[1]) == -1 {
+				continue // no (further) reference in this syntax
+			}
+			if index == -1 || at < index {
+				first, index = i, at
+			}
+		}
+		if first == -1 {
+			break
+		}
+		refStart, refEnd := syntaxes[first][0], syntaxes[first][1]
+		nameEnd := strings.Index(s[index+len(refStart):], refEnd)
+		refLen := len(refStart) + nameEnd + len(refEnd)
+		b.WriteString(replaceEnvReferences(s[:index+refLen], refStart, refEnd))
+		s = s[index+refLen:]
+	}
+	b.WriteString(s)
+	return b.String()
 }
 
 // replaceEnvReferences performs the actual replacement of env variables
